@@ -182,6 +182,11 @@ func c13Parsers(rc *RunCtx, in []byte) *Violation {
 	try("ExtractInstanceTags", func() { otr3.ExtractInstanceTags(in) })
 	try("ExtractMPI", func() { otr3.ExtractMPI(raw) })
 	try("ExtractMPIs", func() { otr3.ExtractMPIs(raw) })
+	for _, off := range []int{3, 11} { // the same bytes as a message body would be handed to it (after a v2 / v3 header)
+		if len(raw) > off {
+			try("ExtractMPIs", func() { otr3.ExtractMPIs(raw[off:]) })
+		}
+	}
 	try("ExtractData", func() { otr3.ExtractData(raw) })
 	try("ExtractShort/Word", func() { otr3.ExtractShort(raw); otr3.ExtractWord(raw); otr3.ExtractLong(raw); otr3.ExtractTime(raw) })
 	try("ParsePublicKey", func() { otr3.ParsePublicKey(raw) })
@@ -269,7 +274,7 @@ func c13Hostile(rc *RunCtx) *Violation {
 		if len(rc.Steps) >= 12+r.Intn(30) {
 			return Step{}, false
 		}
-		return Step{K: "hostile", A: r.Intn(7), B: r.Intn(1 << 16), C: r.Intn(1 << 16), D: r.Intn(1 << 16)}, true
+		return Step{K: "hostile", A: r.Intn(9), B: r.Intn(1 << 16), C: r.Intn(1 << 16), D: r.Intn(1 << 16)}, true
 	}
 	craft := func(s Step) ([]byte, string) {
 		ar := archive()
@@ -313,6 +318,17 @@ func c13Hostile(rc *RunCtx) *Violation {
 				append([]byte("\x00\x00\x06\x00\x04"), 0, 0, 0, 0),                         // abort
 				bytes.Repeat([]byte{'A'}, 70000),                                           // long text
 			}
+			// MPI counts whose product with 4 (or 8) wraps around 32 bits, alone and followed by a few MPIs
+			for _, cnt := range []uint32{0x40000000, 0x40000001, 0x80000000, 0x80000001, 0xC0000000, 0xC0000002, 0x20000000, 0x20000001, 0xE0000000} {
+				for _, typ := range []byte{2, 3, 4, 5} {
+					v := refotr.PutInt(nil, cnt)
+					for i := 0; i < int(cnt&3); i++ {
+						v = refotr.PutMPI(v, big.NewInt(int64(7+i)))
+					}
+					pl := []byte{0, 0, typ, byte(len(v) >> 8), byte(len(v))}
+					plains = append(plains, append(pl, v...))
+				}
+			}
 			// SMP TLVs of every type with every MPI count around the expected ones
 			for typ := 2; typ <= 7; typ++ {
 				for cnt := 0; cnt <= 12; cnt++ {
@@ -348,7 +364,10 @@ func c13Hostile(rc *RunCtx) *Violation {
 				append([]byte{0, 0, 0, 0, 1, 0, 0, 0, 2}, 0xff, 0xff, 0xff, 0xfe),
 				{0, 0, 0, 0, 10},
 				{},
-			}[s.D%6]
+				{0x40, 0, 0, 0, 0, 0, 0, 1, 5},
+				{0x80, 0, 0, 1, 0, 0, 0, 1, 5},
+				{0xC0, 0, 0, 0},
+			}[s.D%9]
 			return refotr.Armor(append(hdr, body...)), "huge-length"
 		case 4:
 			pr := Fork(rc.Seed, "garbage", uint64(s.B)<<16|uint64(s.C))
@@ -368,12 +387,41 @@ func c13Hostile(rc *RunCtx) *Violation {
 			return cp(src), "replay"
 		}
 	}
+	var pend [][]byte // what the victim emitted and the peer has not yet seen
 	for {
 		s, ok := rc.NextStep(gen)
 		if !ok {
 			break
 		}
 		if s.K != "hostile" {
+			continue
+		}
+		if s.A%9 >= 7 {
+			// genuine protocol progress between the hostile inputs: the peer's query (7), or the
+			// peer's genuine reaction to what the victim last emitted (8). The hostile inputs then
+			// meet states that only an answering peer can bring about.
+			var ins [][]byte
+			if s.A%9 == 7 {
+				ins = append(ins, m.Query())
+			} else {
+				for _, o := range pend {
+					mr := m.Receive(o)
+					ins = append(ins, mr.Out...)
+				}
+				pend = nil
+			}
+			for _, in := range ins {
+				var r *CallResult
+				over, delta := c13Alloc(len(in), func() { r = v.Receive(in) })
+				w.Fault("genuine-progress")
+				if viol != nil {
+					return viol
+				}
+				if over {
+					return rc.Viol("alloc", fmt.Sprintf("Receive allocated %d bytes for a %d-byte genuine input (state %s)", delta, len(in), state), map[string]string{"class": "genuine"})
+				}
+				pend = append(pend, r.Out...)
+			}
 			continue
 		}
 		in, cls := craft(s)
@@ -387,7 +435,10 @@ func c13Hostile(rc *RunCtx) *Violation {
 		if over {
 			return rc.Viol("alloc", fmt.Sprintf("Receive allocated %d bytes for a %d-byte input (%s, state %s)", delta, len(in), cls, state), map[string]string{"class": strings.SplitN(cls, ":", 2)[0]})
 		}
-		_ = r
+		pend = append(pend, r.Out...)
+		if len(pend) > 6 {
+			pend = pend[len(pend)-6:]
+		}
 		if pv := c13Parsers(rc, in); pv != nil {
 			return pv
 		}
@@ -414,7 +465,7 @@ func c13Hostile(rc *RunCtx) *Violation {
 func stepArgs(ss []Step) string {
 	s := ""
 	for _, x := range ss {
-		s += fmt.Sprintf("%d.%d.%d ", x.A%7, x.B, x.C)
+		s += fmt.Sprintf("%d.%d.%d ", x.A%9, x.B, x.C)
 	}
 	return s
 }
@@ -503,9 +554,48 @@ func c13RandFault(rc *RunCtx) *Violation {
 		}
 	})
 	// scripted scenario; every step tolerates failure of the previous ones
+	// Once the fault has fired and the source works again, the session that is running must go on
+	// working - not only a fresh one after End (that is what the final probe checks): two texts
+	// each way have to arrive.
+	firedSeen := 0
+	sameSession := func() {
+		if v.Rand.Fired == firedSeen || viol != nil {
+			return
+		}
+		firedSeen = v.Rand.Fired
+		pv, pm := v.post(), m.post()
+		if !pv.Enc || !pm.Enc || pv.SSID != pm.SSID {
+			return
+		}
+		for i := 0; i < 4 && viol == nil; i++ {
+			from, to := m, v
+			if i%2 == 1 {
+				from, to = v, m
+			}
+			txt := w.GenText(from, 2, 0)
+			r := from.Send(txt)
+			got := false
+			for _, o := range r.Out {
+				if rr := to.Receive(o); bytes.Equal(rr.Plain, txt) {
+					got = true
+				} else if len(rr.Out) > 0 {
+					for _, oo := range rr.Out {
+						from.Receive(oo)
+					}
+				}
+			}
+			if viol == nil && !got && i >= 2 {
+				// (the first round may still be lost to the interrupted operation itself)
+				viol = rc.Viol("unusable", fmt.Sprintf("after read number %d of Conversation.Rand failed once (mode %d) the running session no longer carries messages: text %d from %s did not arrive (Send error %q)", k, mode, i, from.Name, r.Err),
+					map[string]string{"after": "rand-fault-same-session"})
+			}
+		}
+		rc.Probe("same_session_probe")
+	}
 	step := func(f func()) bool {
 		f()
 		w.Drain(300)
+		sameSession()
 		return viol == nil
 	}
 	collide := func() {
